@@ -62,6 +62,11 @@ def single_result_shapes():
     mk("loops_still_waiting_to_be_enabled", [gen.plugin_step("q", Expr(In("tag"))), gen.plugin_step("g", gen.tagref("q"), extra_input={"b": True})] +
        [Step("L%d" % k, "foreach", sub=lsub, items=[{"tag": "i0"}], enabled=Expr(Ref("g", "outputs", "success", "b"))) for k in range(4)],
        {"success": {"q": gen.tagref("q")}}, scripts_extra={"g": {"deploys": [{}, {"delay_ms": 15}]}})
+    # an expression over the result of an early stage of one step (its enabling result) and the final result of another, slower
+    # or faster, step; the first step's later stages complete in between
+    mk("earlier_stage_result_with_other_step", [gen.plugin_step("A", Expr(In("tag"))), gen.plugin_step("B", Expr(In("tag"))),
+                                                gen.plugin_step("C", gen.tagref("B"), extra_input={"a": {"e": Expr(Ref("A", "enabling", "resolved", "enabled")), "s": Expr(Ref("A", "starting", "started"))}})],
+       {"success": {"c": Expr(Ref("C", "outputs", "success")), "e": Expr(Ref("A", "enabling", "resolved")), "b": gen.tagref("B")}}, scripts_extra={"B": {"deploys": [{}, {"delay_ms": 30}]}})
     mk("no_output_possible", [gen.plugin_step("a", Expr(In("tag"))), gen.plugin_step("b", gen.tagref("a"))],
        {"success": {"b": gen.tagref("b")}}, outcome={"a": "error"})
     return out
